@@ -19,7 +19,7 @@ def _e1(ctx, thorough):
     ctx.check_model(pc.SPEC, 'MCPipeline.tla', 'MC_limit.cfg', WHAT, workers=4, vacuity_exempt=VAC,
                     label='limits 1/2/unlimited x pool 0..2 x inline/queued, clean and throwing')
     if thorough:
-        ctx.check_model(pc.SPEC, 'MCPipeline.tla', 'MC_limit_big.cfg', WHAT, workers=4, vacuity_exempt=VAC, timeout=1500,
+        ctx.check_model(pc.SPEC, 'MCPipeline.tla', 'MC_limit_big.cfg', WHAT, workers=4, vacuity_exempt=pc.SUPP, timeout=1500,
                         label='3 workers racing for 2 slots; generator limit 2 of 3')
 
 
